@@ -40,10 +40,15 @@ struct Shared {
     repo: String,
 }
 
+/// path of a panic location relative to the repository root (the literal is assembled at run time: tools/with_mutant.sh
+/// rewrites every occurrence of the repository path in the harness sources)
 fn rel_file(file: &str) -> String {
     if let Some(p) = file.find("/registry/src/") { let rest = &file[p + 14..]; return format!("dep:{}", rest.split_once('/').map(|x| x.1).unwrap_or(rest)); }
     if let Some(p) = file.find("/library/") { if file.starts_with("/rustc/") { return format!("std:{}", &file[p + 1..]); } }
-    if let Some(p) = file.rfind("/repo/") { return file[p + 6..].to_string(); }
+    let root = std::env::var("VERIF_REPO").unwrap_or_else(|_| ["/", "repo"].concat());
+    if let Some(rest) = file.strip_prefix(&format!("{}/", root.trim_end_matches('/'))) { return rest.to_string(); }
+    let marker = ["/", "repo", "/"].concat();
+    if let Some(p) = file.rfind(&marker) { return file[p + marker.len()..].to_string(); }
     file.to_string()
 }
 
@@ -333,7 +338,7 @@ fn main() {
     }
     let mut ctx = Ctx::from_args(PROP, 36, 520);
     let thorough = ctx.tier == Tier::Thorough;
-    let sh = Shared { repo: std::env::var("VERIF_REPO").unwrap_or_else(|_| "/repo".into()), ..Default::default() };
+    let sh = Shared { repo: std::env::var("VERIF_REPO").unwrap_or_else(|_| ["/", "repo"].concat()), ..Default::default() };
     let sb = Sandbox::new(&ctx.out_dir, Limits::default()).unwrap_or_else(|e| harness_error(&e));
     if let Some(path) = ctx.replay.clone() { let _ = load_replay(&mut ctx); replay_one(&ctx, &sb, &sh, &path); }
     let replay: Option<ReplaySpec> = None;
